@@ -225,6 +225,7 @@ func (b *BloomSearchEngine) Query(ctx context.Context, query *Query) (*Results, 
 	hasBloomConditions := pruneBloomQuery != nil && pruneBloomQuery.Expression != nil
 
 	r := newResults(ctx)
+	verifEvent("q.begin", r.verifID, int64(b.config.MaxQueryConcurrency))
 
 	// One handle pool per query: each candidate file is opened once for its
 	// block filter region read, and its block scans borrow that handle back
@@ -246,6 +247,8 @@ func (b *BloomSearchEngine) Query(ctx context.Context, query *Query) (*Results, 
 
 	blockWorker := func() {
 		defer blockWorkers.Done()
+		defer verifEvent("bw.exit", r.verifID, 0)
+		verifEvent("bw.start", r.verifID, 0)
 
 		slot := querySlot{sem: b.querySemaphore, ctx: r.ctx}
 		defer slot.release()
@@ -271,12 +274,15 @@ func (b *BloomSearchEngine) Query(ctx context.Context, query *Query) (*Results, 
 			select {
 			case job, ok := <-blockJobs:
 				if !ok {
+					verifEvent("bw.closed", r.verifID, 0)
 					return
 				}
+				verifEventS("bw.take", r.verifID, int64(job.blockMetadata.RowDataOffset), string(job.filePointer))
 				if !runJob(job) {
 					return
 				}
 			case <-r.ctx.Done():
+				verifEvent("bw.ctx", r.verifID, 0)
 				return
 			}
 		}
@@ -296,12 +302,15 @@ func (b *BloomSearchEngine) Query(ctx context.Context, query *Query) (*Results, 
 				break
 			}
 		}
+		verifEvent("bw.spawn", r.verifID, 0)
 		blockWorkers.Add(1)
 		go blockWorker()
 	}
 
 	fileWorker := func() {
 		defer fileWorkers.Done()
+		defer verifEvent("fw.exit", r.verifID, 0)
+		verifEvent("fw.start", r.verifID, 0)
 
 		slot := querySlot{sem: b.querySemaphore, ctx: r.ctx}
 		defer slot.release()
@@ -312,9 +321,11 @@ func (b *BloomSearchEngine) Query(ctx context.Context, query *Query) (*Results, 
 			select {
 			case job, ok := <-fileJobs:
 				if !ok {
+					verifEvent("fw.closed", r.verifID, 0)
 					return
 				}
 
+				verifEventS("fw.take", r.verifID, int64(len(job.blocks)), string(job.filePointer))
 				// Blocks are evaluated and dispatched in ascending row data
 				// order, so a file's row data reads move forward through the
 				// file; the dispatch below indexes the same ordering.
@@ -339,11 +350,14 @@ func (b *BloomSearchEngine) Query(ctx context.Context, query *Query) (*Results, 
 						filterDuration: survivor.filterDuration,
 					}
 					handles.retain(job.filePointer)
+					verifEventS("fw.dispatch.try", r.verifID, int64(blockJob.blockMetadata.RowDataOffset), string(job.filePointer))
 					if err := sendWithContext(r.ctx, blockJobs, blockJob); err != nil {
+						verifEvent("fw.dispatch.abort", r.verifID, 0)
 						handles.release(job.filePointer)
 						dispatched = false
 						break
 					}
+					verifEvent("fw.dispatch.sent", r.verifID, 0)
 					spawnBlockWorker()
 				}
 				handles.release(job.filePointer)
@@ -351,6 +365,7 @@ func (b *BloomSearchEngine) Query(ctx context.Context, query *Query) (*Results, 
 					return
 				}
 			case <-r.ctx.Done():
+				verifEvent("fw.ctx", r.verifID, 0)
 				return
 			}
 		}
@@ -372,16 +387,21 @@ func (b *BloomSearchEngine) Query(ctx context.Context, query *Query) (*Results, 
 	go func() {
 		defer fileWorkers.Done()
 		defer close(fileJobs)
+		defer verifEvent("fs.exit", r.verifID, 0)
+		verifEvent("fs.start", r.verifID, 0)
 
 		workersSpawned := 0
 		for maybeFile, err := range b.metaStore.GetMaybeFilesForQuery(r.ctx, query.Prefilter) {
 			if err != nil {
 				// Stop pulling; blocks already dispatched still finish, and
 				// the error surfaces from Results.Err.
+				verifEvent("fs.pull.err", r.verifID, 0)
 				r.recordQueryError(fmt.Errorf("MetaStore iteration failed: %w", err))
 				return
 			}
+			verifEventS("fs.pull", r.verifID, int64(len(maybeFile.Metadata.DataBlocks)), string(maybeFile.PointerBytes))
 			if r.ctx.Err() != nil {
+				verifEvent("fs.ctx", r.verifID, 0)
 				return
 			}
 
@@ -393,6 +413,7 @@ func (b *BloomSearchEngine) Query(ctx context.Context, query *Query) (*Results, 
 			// left with no matching blocks are dropped.
 			maybeFile.Metadata.DataBlocks = FilterDataBlocks(maybeFile.Metadata.DataBlocks, query.Prefilter)
 			if len(maybeFile.Metadata.DataBlocks) == 0 {
+				verifEvent("fs.drop.prefilter", r.verifID, 0)
 				continue
 			}
 
@@ -402,6 +423,7 @@ func (b *BloomSearchEngine) Query(ctx context.Context, query *Query) (*Results, 
 				maybeFile.Metadata.BloomFilters.FieldTokenBloomFilter,
 				pruneBloomQuery,
 			) {
+				verifEvent("fs.drop.bloom", r.verifID, 0)
 				continue
 			}
 
@@ -421,24 +443,32 @@ func (b *BloomSearchEngine) Query(ctx context.Context, query *Query) (*Results, 
 				filterRegionSize:   maybeFile.Metadata.BlockFilterRegionSize,
 				blocks:             maybeFile.Metadata.DataBlocks,
 			}
+			verifEventS("fs.job.try", r.verifID, int64(len(job.blocks)), string(job.filePointer))
 			if err := sendWithContext(r.ctx, fileJobs, job); err != nil {
+				verifEvent("fs.job.abort", r.verifID, 0)
 				return
 			}
+			verifEvent("fs.job.sent", r.verifID, 0)
 			if workersSpawned < b.config.MaxQueryConcurrency {
 				workersSpawned++
+				verifEvent("fs.spawn", r.verifID, 0)
 				fileWorkers.Add(1)
 				go fileWorker()
 			}
 		}
+		verifEvent("fs.end", r.verifID, 0)
 	}()
 
 	// Teardown order: file workers are the only spawners of block workers, so
 	// waiting for them first makes blockWorkers.Wait race-free, and the pool
 	// closes only once no reader can hold or ask for a handle.
 	go func() {
+		verifEvent("td.start", r.verifID, 0)
 		fileWorkers.Wait()
+		verifEvent("td.filesdone", r.verifID, 0)
 		close(blockJobs)
 		blockWorkers.Wait()
+		verifEvent("td.blocksdone", r.verifID, 0)
 		handles.closeAll()
 		r.markWorkersDone()
 	}()
@@ -501,6 +531,7 @@ func (b *BloomSearchEngine) evaluateBlockFilters(
 	// A query without bloom conditions cannot be disqualified by any filter: no
 	// section is read at all and every candidate block goes on to be scanned.
 	if pruneBloomQuery == nil || pruneBloomQuery.Expression == nil {
+		verifEvent("ebf.noconds", r.verifID, 0)
 		for i := range blocks {
 			dst = append(dst, blockScanCandidate{index: i})
 		}
@@ -522,6 +553,7 @@ func (b *BloomSearchEngine) evaluateBlockFilters(
 	}
 
 	if r.ctx.Err() != nil {
+		verifEvent("ebf.ctx", r.verifID, -1)
 		// Cancellation is neither an error nor a block outcome: the blocks
 		// record nothing, exactly like blocks still queued for a scan when the
 		// query terminates.
@@ -530,11 +562,13 @@ func (b *BloomSearchEngine) evaluateBlockFilters(
 
 	regionStart, regionEnd, hasSections, err := planBlockFilterReads(blocks, job.filterRegionOffset, job.filterRegionSize)
 	if err != nil {
+		verifEvent("ebf.planfail", r.verifID, 0)
 		fail(fmt.Errorf("unusable block filter region metadata: %w", err))
 		recordUnreadBlocks(r, job.filePointer, blocks, 0)
 		return dst
 	}
 	if !hasSections {
+		verifEvent("ebf.nosections", r.verifID, 0)
 		// Nothing to read, so the file is never even opened: absent filters
 		// disqualify nothing and every candidate block goes on to be scanned.
 		for i := range blocks {
@@ -547,6 +581,7 @@ func (b *BloomSearchEngine) evaluateBlockFilters(
 	handle, err := handles.acquire(r.ctx, job.filePointer)
 	openDuration := time.Since(openStart)
 	if err != nil {
+		verifEvent("ebf.openfail", r.verifID, 0)
 		fail(fmt.Errorf("failed to open file: %w", err))
 		recordUnreadBlocks(r, job.filePointer, blocks, openDuration)
 		return dst
@@ -571,6 +606,7 @@ func (b *BloomSearchEngine) evaluateBlockFilters(
 
 	for i := range blocks {
 		if r.ctx.Err() != nil {
+			verifEvent("ebf.ctx", r.verifID, int64(i))
 			return dst
 		}
 
@@ -579,12 +615,15 @@ func (b *BloomSearchEngine) evaluateBlockFilters(
 
 		filters, readShare, readFailed, err := cursor.filtersFor(i)
 		if err != nil {
+			verifEvent("ebf.filterfail", r.verifID, int64(i))
 			fail(fmt.Errorf("failed to read data block bloom filters: %w", err))
 			if readFailed {
+				verifEvent("ebf.readfail", r.verifID, int64(i))
 				handleHealthy = false
 				recordUnreadBlocks(r, job.filePointer, blocks[i:], openShare+readShare+time.Since(blockStart))
 				return dst
 			}
+			verifEvent("ebf.parsefail", r.verifID, int64(i))
 			recordUnreadBlocks(r, job.filePointer, blocks[i:i+1], openShare+readShare+time.Since(blockStart))
 			continue
 		}
@@ -600,10 +639,12 @@ func (b *BloomSearchEngine) evaluateBlockFilters(
 		duration := openShare + readShare + time.Since(blockStart)
 
 		if survived {
+			verifEvent("ebf.survive", r.verifID, int64(i))
 			dst = append(dst, blockScanCandidate{index: i, filterDuration: duration})
 			continue
 		}
 
+		verifEvent("ebf.pruned", r.verifID, int64(i))
 		r.recordBlockStats(BlockStats{
 			FilePointer:        job.filePointer,
 			BlockOffset:        block.RowDataOffset,
@@ -665,6 +706,7 @@ func (b *BloomSearchEngine) processDataBlock(
 	// block's filter evaluation and its share of the file's region read, which
 	// the file stage performed.
 	defer func() {
+		verifEvent("pdb.end", rowsScanned, bytesScanned)
 		r.recordBlockStats(BlockStats{
 			FilePointer:    job.filePointer,
 			BlockOffset:    job.blockMetadata.RowDataOffset,
@@ -690,6 +732,7 @@ func (b *BloomSearchEngine) processDataBlock(
 
 	file, err := handles.acquire(ctx, job.filePointer)
 	if err != nil {
+		verifEvent("pdb.openfail", r.verifID, 0)
 		fail(fmt.Errorf("failed to open file: %w", err))
 		return
 	}
@@ -705,6 +748,7 @@ func (b *BloomSearchEngine) processDataBlock(
 		// This read is the only thing the scan needs the handle for, and a
 		// failure may have left it mid-stream: close it rather than lend it to
 		// the file's next reader.
+		verifEvent("pdb.readfail", r.verifID, 0)
 		handles.discard(file)
 		fail(fmt.Errorf("failed to read block row data: %w", err))
 		return
@@ -729,11 +773,13 @@ func (b *BloomSearchEngine) processDataBlock(
 	for {
 		// Cancellation is terminal for the query; stop scanning promptly.
 		if ctx.Err() != nil {
+			verifEvent("pdb.ctx", r.verifID, 0)
 			return
 		}
 
 		rowBytes, ok, err := scanner.Next()
 		if err != nil {
+			verifEvent("pdb.rowerr", r.verifID, 0)
 			fail(fmt.Errorf("failed to read row: %w", err))
 			return
 		}
@@ -754,12 +800,14 @@ func (b *BloomSearchEngine) processDataBlock(
 
 		row, err := materializeRow(rowBytes)
 		if err != nil {
+			verifEvent("pdb.rowerr", r.verifID, 1)
 			fail(err)
 			return
 		}
 		verifEventS("scan.row", 0, 0, unsafeString(rowBytes))
 
 		if err := batcher.add(row); err != nil {
+			verifEvent("pdb.deliverfail", r.verifID, 0)
 			return
 		}
 	}
